@@ -200,6 +200,24 @@ def run(chk: lib.Check):
                         if gone_holders >= 4:
                             break
                 stats["deletions_of_reported_holders"] += gone_holders
+                # ... and members taken out of link-element relations (the link element disappears from the tree: it must disappear from
+                # every search as well)
+                unlinked = 0
+                for x_ in histories._objects(model, rng, 800):
+                    if unlinked >= 8:
+                        break
+                    if not r._alive(x_):
+                        continue
+                    for n_, a_ in r.rels(x_, ("link",)):
+                        try:
+                            l_ = getattr(x_, n_)
+                            if len(l_):
+                                l_.remove(l_[rng.randrange(len(l_))])
+                                unlinked += 1
+                                break
+                        except Exception:  # noqa: BLE001
+                            continue
+                stats["link_members_removed"] += unlinked
                 chk.coverage["path_first_segments"] = sorted(first_segs)
             loader = model._loader
             A = graph.Abstraction()
@@ -554,6 +572,40 @@ def run(chk: lib.Check):
                             if [id(e) for e in by._elements] != want_by or [id(e) for e in ex._elements] != want_ex:
                                 chk.violation(f"filter-partition:multi-value:{fattr}", f"{type(o).__name__}({o.uuid}).{attr}: by_{fattr}{tuple(vs_)!r} has {len(by)}, exclude has {len(ex)}, "
                                               f"a scan gives {len(want_by)} / {len(want_ex)} of {len(li)}", {"model": spec0["name"], "owner": o.uuid, "relation": attr, "filter": fattr, "values": [str(v) for v in vs_]})
+                    # single-valued REFERENCE attributes (the key is an object or None): a member without a value belongs to the exclude side
+                    for fattr in ("owner", "parent", "source", "target", "layer"):
+                        ks_ = []
+                        ok_ = True
+                        for x in lst:
+                            try:
+                                k_ = getattr(x, fattr)
+                            except AttributeError:
+                                k_ = AttributeError
+                            except Exception:  # noqa: BLE001
+                                ok_ = False
+                                break
+                            if not (k_ is None or k_ is AttributeError or isinstance(k_, _obj.ModelElement)):
+                                ok_ = False
+                                break
+                            ks_.append(k_)
+                        objs_ = [k_ for k_ in ks_ if isinstance(k_, _obj.ModelElement)]
+                        if not ok_ or not objs_:
+                            continue
+                        for v_ in objs_[:2]:
+                            try:
+                                by = getattr(lst, f"by_{fattr}")(v_, single=False)
+                                ex = getattr(lst, f"exclude_{fattr}s")(v_)
+                            except Exception as exn:  # noqa: BLE001
+                                stats[f"reference-filter-raises:{type(exn).__name__}"] += 1
+                                continue
+                            li = [id(e) for e in lst._elements]
+                            hit = [isinstance(k_, _obj.ModelElement) and k_ == v_ for k_ in ks_]
+                            stats["reference_valued_filters_checked"] += 1
+                            chk.note_case((spec0["name"], "filter-ref", o.uuid, attr, fattr), nontrivial=any(k_ is None for k_ in ks_))
+                            if [id(e) for e in by._elements] != [i for i, h in zip(li, hit) if h] or [id(e) for e in ex._elements] != [i for i, h in zip(li, hit) if not h]:
+                                chk.violation(f"filter-partition:reference-valued:{fattr}", f"{type(o).__name__}({o.uuid}).{attr}: by_{fattr}(<object>) has {len(by)}, exclude_{fattr}s has {len(ex)}, "
+                                              f"list has {len(li)} ({sum(1 for k_ in ks_ if k_ is None)} members without a value)",
+                                              {"model": spec0["name"], "owner": o.uuid, "relation": attr, "filter": fattr, "value": v_.uuid})
                     for fattr in LIST_ATTRS:
                         vals_per = []
                         ok_ = True
